@@ -16,6 +16,7 @@ import (
 	"verif/checks/c09"
 	"verif/checks/c11"
 	"verif/checks/c12"
+	"verif/checks/c15"
 	"verif/checks/c17"
 	"verif/engine/report"
 )
@@ -36,6 +37,7 @@ var checks = map[string]check{
 	"C09": {"fault_enumeration", c09.Run, c09.Replay},
 	"C11": {"model_checking", c11.Run, c11.Replay},
 	"C12": {"model_checking", c12.Run, c12.Replay},
+	"C15": {"exploration", c15.Run, c15.Replay},
 	"C17": {"exploration", c17.Run, c17.Replay},
 }
 
